@@ -119,6 +119,11 @@ T['C06'][1].extend([
     ('C06_copy_from_twin_kinds', 'C06_copy_from_twin_kinds', 'the same through the whole converter, from an empty diagnostics list, and no diagnostic is reported twice'),
 ])
 
+T['C06'][1].extend([
+    ('C06_to_diags_once', 'C06_to_diags_once', 'CopyTo reports every problem once: the diagnostics it returns hold no duplicate, however many list or map elements reach a missing type'),
+    ('C06_to_fields_diags_once', 'C06_to_fields_diags_once', 'at every level, from any duplicate-free list of earlier diagnostics'),
+])
+
 T['C07'] = ("""C07 Oneof groups stay exclusive in both directions.""", [
     ('C07_from_none', 'from_fields_oneof_none', 'all branch attributes null / unknown / missing: the oneof is nil whatever the target held'),
     ('C07_from_one', 'from_fields_oneof_some', 'the last known scalar branch wins: the holder is that branch with the decoded value'),
@@ -214,6 +219,10 @@ T['C11'] = ("""C11 Field-addressed options hit exactly the addressed fields; exc
     ('C11_exclusion_field_level', 'build_fields_excl_lit', 'and for the field list of one message'),
     ('C11_path_form_elsewhere', 'build_message_off_path_cfg', 'path form "Root.a.b": away from that path nothing changes at all'),
     ('C11_path_form_at_path', 'build_message_at_path_cfg', 'and at the parent path the message is built as from its descriptor without the field (this one occurrence only)'),
+    ('C11_converters_ignore_schema_options_to', 'C11_converters_ignore_schema_options_copy_to', 'schema-only options — required, computed, sensitive, validators, plan modifiers, descriptions, injected fields — leave CopyTo unchanged: erasing them at every depth gives the same converter, for any user functions'),
+    ('C11_converters_ignore_schema_options_from', 'C11_converters_ignore_schema_options_copy_from', 'and CopyFrom (in particular the up-front reset of a repeated field does not depend on its being required)'),
+    ('C11_same_converters', 'C11_same_converters_copy_to', 'two configurations that differ only in such options give identical CopyTo'),
+    ('C11_injected_fields_leave_converters', 'C11_injected_fields_leave_converters', 'injected fields never reach the converters'),
 ])
 
 T['C12'] = ("""C12 Only selected types are emitted, independent of the rest of the request.""", [
